@@ -439,6 +439,8 @@ Fixpoint check_hist (aw : list nat) (p : option snap) (ops : list zop) (snaps : 
      gave no tree or a tree that is not well-formed where the construction demands one,
      MakeTreeMarshal panicked, Marshal / BinaryMarshaler failed, or a rebuild returned nil
      without an error *)
+(* 11 the process running the servers ended (a panic in a goroutine of a server) or stopped
+     answering while a tree was propagated / a history was driven *)
 Definition broken (o : rres) : bool := match o with RBroken _ => true | _ => false end.
 
 Definition check (c : case) : list nat :=
@@ -479,7 +481,7 @@ Definition check (c : case) : list nat :=
                                     end) views)
       else [10]                     (* propagation senders are always built by NewTree *)
   | CHist ops snaps => check_hist [] None ops snaps
-  | CSetup _ => [10]
+  | CSetup why => if why =? 6 then [11] else [10]
   end.
 
 Definition violations (l : list case) : list (nat * nat) := viols check l.
